@@ -1096,7 +1096,7 @@ End Uniform.
 
 Definition uniform_op (o : base_op) : bool :=
   match o with
-  | OIpAddress | ONotIpAddress | ODateLessThan | ODateLessThanEquals | ODateGreaterThan | ODateGreaterThanEquals => false
+  | ODateLessThan | ODateLessThanEquals | ODateGreaterThan | ODateGreaterThanEquals => false
   | _ => true
   end.
 
@@ -1108,7 +1108,10 @@ Proof.
   destruct o; simpl in Hu; try discriminate Hu; clear Hu;
     destruct p; simpl in Hp; try discriminate Hp; clear Hp;
     destruct q; simpl in Hq; try discriminate Hq; clear Hq;
-    destruct c; simpl; split; intros H; solve [reflexivity | discriminate H | exact H].
+    destruct c; simpl; split; intros H;
+      solve [reflexivity | discriminate H | exact H
+             | match goal with |- context [ipver_eqb ?x ?y] => destruct (ipver_eqb x y) end; discriminate
+             | match type of H with context [ipver_eqb ?x ?y] => destruct (ipver_eqb x y) end; discriminate H].
 Qed.
 
 Theorem typed_values_uniform fold o ps c :
@@ -1146,6 +1149,9 @@ Definition a := 97. Definition b := 98. Definition x := 120.
 Definition net10 : cval := CNet (Net V4 167772160 8).          (* 10.0.0.0/8 *)
 Definition net6all : cval := CNet (Net V6 0 0).                (* ::/0 *)
 Definition host10 : cval := CNet (Net V4 167837953 32).        (* 10.1.1.1/32 *)
+Definition dt2030 (aware : bool) : cval := CDate aware 1893456000000000.   (* 2030-01-01T00:00:00, with / without a zone *)
+Definition dt2020 : cval := CDate true 1577836800000000.                   (* 2020-01-01T00:00:00Z *)
+Definition n_DateLessThan : str := base_name ODateLessThan.
 
 (* 1a: without NoDup the order of the operators matters.
    {"StringEquals": {"k1": "b"}, "String:Equals": {"k1": "a"}}  on {"k1": "a"}: True;  the two swapped: False *)
@@ -1171,26 +1177,27 @@ Proof.
 Qed.
 
 (* 2: full equality under a permutation of the VALUES, and monotonicity without comparability, are FALSE.
-   {"IpAddress": {"k1": ["10.0.0.0/8", "::/0"]}} on {"k1": 10.1.1.1/32}: True;  ["::/0", "10.0.0.0/8"]: None
-   (subnet_of across IP versions raises before the matching range is reached);  ["10.0.0.0/8"] alone: True,
-   so ADDING the value "::/0" in front turned True into None. *)
+   {"DateLessThan": {"k1": ["2030-01-01T00:00:00Z", "2030-01-01T00:00:00"]}} on k1 = 2020-01-01T00:00:00Z: True; with the naive
+   timestamp first: None (aware < naive raises TypeError before the comparable value is reached); the aware value alone: True, so
+   ADDING a value in front turned True into None.  (Until fix F30 the IP operators had the same defect, with a far more ordinary
+   witness -- {"IpAddress": {"k1": ["::/0", "10.0.0.0/8"]}} on 10.1.1.1: None -- which is how that finding was made.) *)
 Theorem values_order_refuted :
   exists o ps qs c, negated o = false /\ Permutation ps qs /\
     value_ok (op_test idf) o ps c = Some true /\ value_ok (op_test idf) o qs c = None.
 Proof.
-  exists OIpAddress, [net10; net6all], [net6all; net10], host10.
+  exists ODateLessThan, [dt2030 true; dt2030 false], [dt2030 false; dt2030 true], dt2020.
   split; [reflexivity|]. split; [apply perm_swap|]. split; vm_compute; reflexivity.
 Qed.
 Theorem values_monotone_needs_comparable :
   exists o p ps c, negated o = false /\
     value_ok (op_test idf) o ps c = Some true /\ value_ok (op_test idf) o (p :: ps) c = None.
-Proof. exists OIpAddress, net6all, [net10], host10. repeat split; vm_compute; reflexivity. Qed.
+Proof. exists ODateLessThan, (dt2030 false), [dt2030 true], dt2020. repeat split; vm_compute; reflexivity. Qed.
 Theorem block_values_order_refuted :
   exists b1 b2 ctx, block_rel (fun _ => groups_rel (fun _ pv pv' => Permutation (plist pv) (plist pv'))) b1 b2 /\
     ev b1 ctx = Some true /\ ev b2 ctx = None.
 Proof.
-  exists [(n_IpAddress, [(k1, PMany [net10; net6all])])], [(n_IpAddress, [(k1, PMany [net6all; net10])])],
-         [(k1, XOne host10)].
+  exists [(n_DateLessThan, [(k1, PMany [dt2030 true; dt2030 false])])], [(n_DateLessThan, [(k1, PMany [dt2030 false; dt2030 true])])],
+         [(k1, XOne dt2020)].
   split; [|split; vm_compute; reflexivity].
   constructor; [|constructor]. split; [reflexivity|]. constructor; [|constructor]. split; [reflexivity | apply perm_swap].
 Qed.
@@ -1204,14 +1211,29 @@ Proof.
          [CDate false 1893456000000000; CDate true 1893456000000000], (CDate true 1577836800000000).
   split; [apply perm_swap|]. split; vm_compute; reflexivity.
 Qed.
-(* the negated counterpart: False / None.  {"NotIpAddress": {"k1": ["10.0.0.0/8", "::/0"]}}: False; swapped: None *)
+(* the negated counterpart: False / None -- since fix F30 only with a policy value outside the operator's type (a number under a
+   string operator; pydantic does not produce such a block): for typed values every negated operator is order-blind
+   (typed_values_set, ip_values_order_blind) *)
 Theorem negated_values_order_refuted :
   exists o ps qs c, negated o = true /\ Permutation ps qs /\
     value_ok (op_test idf) o ps c = Some false /\ value_ok (op_test idf) o qs c = None.
 Proof.
-  exists ONotIpAddress, [net10; net6all], [net6all; net10], host10.
+  exists OStringNotEqualsIgnoreCase, [S a; CInt 5], [CInt 5; S a], (S a).
   split; [reflexivity|]. split; [apply perm_swap|]. split; vm_compute; reflexivity.
 Qed.
+
+(* SINCE FIX F30 the IP operators are no exception any more: ranges of both IP versions in one list are alternatives in any order
+   ({"IpAddress": {"k1": ["10.0.0.0/8", "::/0"]}} on 10.1.1.1/32 is True whichever range comes first, and on an IPv6 address too) *)
+Theorem ip_values_order_blind fold o ps qs c :
+  (o = OIpAddress \/ o = ONotIpAddress) -> (forall p, In p ps -> has_fam (family o) p = true) -> (forall p, In p ps <-> In p qs) ->
+  value_ok (op_test fold) o ps c = value_ok (op_test fold) o qs c.
+Proof. intros [->| ->] Hf Hs; apply typed_values_set; try reflexivity; assumption. Qed.
+Example ip_mixed_versions_any_order :
+  value_ok (op_test idf) OIpAddress [net10; net6all] host10 = Some true /\
+  value_ok (op_test idf) OIpAddress [net6all; net10] host10 = Some true /\
+  value_ok (op_test idf) OIpAddress [net10; net6all] (CNet (Net V6 1 128)) = Some true /\
+  value_ok (op_test idf) ONotIpAddress [net6all; net10] host10 = Some false.
+Proof. repeat split; vm_compute; reflexivity. Qed.
 
 (* 3: eval (b1 ++ b2) = True does NOT give eval b1 = True when b2 spells an operator of b1 again; in particular
    adding an operator at the END can make a block MORE permissive.
